@@ -197,9 +197,14 @@ int muggle_log_complicated_init(
 			log_path = log_path_buf;
 		}
 
-		muggle_log_file_time_rot_handler_init(
+		int ret = muggle_log_file_time_rot_handler_init(
 			&file_time_rot_handler, log_path,
 			MUGGLE_LOG_TIME_ROTATE_UNIT_DAY, 1, false);
+		if (ret != 0)
+		{
+			fprintf(stderr, "failed init file time rotate handler with path: %s\n", log_path);
+			return -1;
+		}
 		muggle_log_handler_set_level(
 			(muggle_log_handler_t*)&file_time_rot_handler, level_file_time_rotating);
 		muggle_log_handler_set_fmt((muggle_log_handler_t*)&file_time_rot_handler, &formatter);
